@@ -44,7 +44,8 @@ def uniq(plan, prefix):
         if act[0] in ('pause', 'kill', 'fail', 'soon_ok', 'soon_raise'):
             # (a text containing 'falsy' keeps that marker: it makes the exception built from it a falsy object)
             act = [act[0], '%s-%s%s%d' % (prefix, 'falsy-' if 'falsy' in str(act[1]) else '', act[0], n)]
-        elif act[0] == 'resume' and len(act) > 1 and act[1] is not None:
+        elif act[0] == 'resume' and len(act) > 1 and act[1] is not None and act[1] != [None]:
+            # (['resume', [None]] stays: None as the value of the wake-up is a case of its own)
             act = ['resume', ['%s-rv%d' % (prefix, n)]]
         out.append({'at': entry['at'], 'act': act})
     return out
